@@ -37,6 +37,7 @@ ASSUMPTIONS = ["a generator is created and first resumed in the same context (bo
 
 def prepare():
     base.prepare_common()
+    base.monitoring()
 
 
 # ----------------------------------------------------------------- generation
